@@ -31,8 +31,8 @@ def caps_for(nlines, spec):
 
 
 DELAY_POOL = st.lists(st.one_of(st.sampled_from([0, 0, 1, 2, 4, 8, 16, 64]), st.integers(0, 64)), min_size=8, max_size=24)
-CAPS = st.one_of(st.sampled_from([4, 4, 8, 16, 64]),
-                 st.lists(st.sampled_from([4, 4, 4, 8, 8, 12, 16, 32]), min_size=3, max_size=12))
+CAPS = st.one_of(st.sampled_from([4, 4, 8, 16, 64, 128, 256, 1020]),
+                 st.lists(st.sampled_from([4, 4, 4, 8, 8, 12, 16, 32, 132, 512]), min_size=3, max_size=12))
 
 
 @st.composite
